@@ -422,6 +422,50 @@ def filter_sweep(lang: str, text: str, tokens):
     return out
 
 
+FILTER_FLAGS = {1: "f_kwarg_raw_lines", 2: "f_kwarg_trailing_ws", 3: "f_reraise_counts_comments"}
+N_FCANDS = 5
+MAX_FILTER_BLOCKS = 10
+
+
+def _call_spans(content: str):
+    """what KeywordArgumentFilter._is_inside_function_call gets from the parser: (lineno, end_lineno) of every ast.Call (oracle);
+    a text CPython rejects has none (the filter answers False) - this is also what happens to TypeScript / JavaScript text"""
+    import ast
+    try:
+        tree = ast.parse(content)
+    except (SyntaxError, ValueError):
+        return []
+    return sorted({(n.lineno, n.end_lineno) for n in ast.walk(tree)
+                   if isinstance(n, ast.Call) and getattr(n, "lineno", None) is not None and getattr(n, "end_lineno", None) is not None})
+
+
+def filter_blocks(lang, c0, c1, tok0, sl, r):
+    """the registered DRY block filters, one by one, on candidate blocks (windows of 2-5 token lines) of both versions of a file:
+    [[s0, e0, s1, e1, decisions on version 0, decisions on version 1]] - every block on which some filter fires or the two
+    versions disagree, plus a few random ones"""
+    ensure_repo_on_path()
+    from src.linters.dry.block_filter import create_default_registry
+    reg = create_default_registry()
+
+    def dec(content, s, e):
+        b = SimpleNamespace(file_path=Path("x"), start_line=s, end_line=e, snippet="", hash_value=0)
+        return [bool(f.should_filter(b, content)) for f in reg._filters]
+    toks = tok0 or []
+    seen, hot, cold = set(), [], []
+    for w in (2, 3, 4, 5):
+        for i in range(0, max(0, len(toks) - w + 1)):
+            s, e = toks[i][0], toks[i + w - 1][0]
+            if (s, e) in seen or e - s > 14:
+                continue
+            seen.add((s, e))
+            d0, d1 = dec(c0, s, e), dec(c1, sl(s), sl(e))
+            (hot if (any(d0) or any(d1) or d0 != d1) else cold).append([s, e, sl(s), sl(e), d0, d1])
+    r.shuffle(hot)
+    r.shuffle(cold)
+    keep = hot[:MAX_FILTER_BLOCKS - 3]
+    return {"names": [f.name for f in reg._filters], "blocks": sorted(keep + cold[:MAX_FILTER_BLOCKS - len(keep)])}
+
+
 _codec = None
 
 
@@ -470,13 +514,22 @@ def run_unit(job):
     filters = {}
     if job.get("sweep_filters") and lang in ("py", "ts", "js") and not c0.startswith(E.BOM) and "\r" not in c0:
         filters = filter_sweep(lang, c0, u0["tokens"])
+    fcase = None
+    if lang in ("py", "ts", "js") and ic0 == c0 and ic1 == c1 and c0.isascii() and c1.isascii() and "\r" not in c0 + c1 \
+            and "\x00" not in c0 + c1 and u0["tokens"]:
+        # the block filters on both versions (the model works on ASCII text split at "\n", as the filters themselves do)
+        try:
+            fb = filter_blocks(lang, c0, c1, u0["tokens"], sl, rng_for(job.get("seed", 0), PROP, "fblocks", job["file"], len(c0)))
+            fcase = {"lang": lang, "raw0": ps0, "raw1": ps1, "calls0": _call_spans(c0), "calls1": _call_spans(c1), **fb}
+        except Exception as e:  # noqa: BLE001
+            return {"error": f"block filter raised {type(e).__name__}: {e}"}
     nodes = []
     if len(u0["nodes"]) == len(u1["nodes"]):
         for a, b in zip(u0["nodes"], u1["nodes"]):
             nodes.append([a[0], a[1], a[2], b[1], b[2], a[3], b[3]])
     return {"ps0": ps0, "es": es, "ps1": ps1, "added": added, "docs0": u0["docs"], "docs1": u1["docs"],
             "tok0": u0["tokens"], "tok1": u1["tokens"], "nodes": nodes, "nodes_lost": len(u0["nodes"]) != len(u1["nodes"]),
-            "queries": [[v, r, a, b] for (v, r), a, b in zip(qs, i0, i1)], "filters": filters}
+            "queries": [[v, r, a, b] for (v, r), a, b in zip(qs, i0, i1)], "filters": filters, "fcase": fcase}
 
 
 cstr = c04.cstr
@@ -525,6 +578,25 @@ def judge_units(units, workdir: Path, nshards=16):
         for j, o in zip(chunk, out):
             verdicts[j] = o
     return verdicts
+
+
+def coq_fcase(fc) -> str:
+    pairs = lambda l: coq.coq_list([f"({a}, {b})" for a, b in l])
+    bools = lambda l: coq.coq_list([coq.coq_bool(x) for x in l])
+    blocks = coq.coq_list([f"({s0}, {e0}, {s1}, {e1}, {bools(d0)}, {bools(d1)})" for s0, e0, s1, e1, d0, d1 in fc["blocks"]])
+    return ("{| fk_lang := %d; fk_raw0 := %s; fk_calls0 := %s; fk_raw1 := %s; fk_calls1 := %s; fk_blocks := %s |}" % (
+        0 if fc["lang"] == "py" else 1, coq.coq_list([cstr(x) for x in fc["raw0"]]), pairs(fc["calls0"]),
+        coq.coq_list([cstr(x) for x in fc["raw1"]]), pairs(fc["calls1"]), blocks))
+
+
+def judge_fcases(fcases, workdir: Path, per_shard=30):
+    shards = ["\n".join(f"Eval vm_compute in (judge_filters fq_actual {coq_fcase(fc)})." for fc in fcases[i:i + per_shard])
+              for i in range(0, len(fcases), per_shard)]
+    outs = coq.eval_shards(workdir, HEADER + "From TL Require Import Model.DryFilter Model.EditFilter.\n", shards, timeout=600)
+    flat = [o for out in outs for o in out]
+    if len(flat) != len(fcases):
+        raise RuntimeError(f"expected {len(fcases)} results, got {len(flat)}")
+    return flat
 
 
 # ------------------------------------------------------------------ programs with suppression directives
@@ -791,14 +863,16 @@ def unit_jobs(jobs, seed, cap):
             for v in pick[:5]:
                 qs.append((v, r.choice(rules + QUERY_RULES[:2])))
             fid = (prog["id"], f["name"])
-            out.append({"job": j, "file": f["name"], "lang": f["lang"], "plan": pl, "queries": qs, "sweep_filters": fid not in swept})
+            out.append({"job": j, "file": f["name"], "lang": f["lang"], "plan": pl, "queries": qs, "sweep_filters": fid not in swept, "seed": seed})
             swept.add(fid)
     if len(out) > cap:
         r = rng_for(seed, PROP, "unit-cap")
-        keep = [u for u in out if any(o[0] in ("trail_ff", "bom") for o in u["plan"].ops)]
-        rest = [u for u in out if u not in keep]
+        # corpus witnesses are always judged; then the rare edit kinds; then a random selection
+        first = [u for u in out if jobs[u["job"]]["prog"].get("source") == "corpus"]
+        keep = [u for u in out if u not in first and any(o[0] in ("trail_ff", "bom") for o in u["plan"].ops)]
+        rest = [u for u in out if u not in keep and u not in first]
         r.shuffle(rest)
-        out = keep[: cap // 3] + rest[: cap - min(len(keep), cap // 3)]
+        out = first + keep[: cap // 3] + rest[: max(0, cap - len(first) - min(len(keep), cap // 3))]
     return out
 
 
@@ -820,7 +894,10 @@ def run(tier: str, seed: int, replay: str | None = None) -> int:
                 "target; header-sensitive rules file-header / lazy-ignores are compared only for plans entirely below the header); the edited text "
                 "must parse to the same statement-level tree.  A case (program, plan) is non-trivial when the base project has at least one "
                 "violation; distinct = distinct (program text, operations).  Unit level: both versions of each edited file through the "
-                "implementation's tokenizer / count_loc / should_ignore_violation, judged against the Coq model in the VM.  " + RENAME_RULES_NOTE)
+                "implementation's tokenizer / count_loc / should_ignore_violation, judged against the Coq model in the VM; and up to 10 candidate blocks "
+                "(windows of 2-5 token lines, preferring those on which a filter fires) per edited Python / TypeScript / JavaScript file through each of "
+                "the four DRY block filters on both versions, judged against Model/EditFilter.v under the claimed vector, each flag off, all off.  "
+                + RENAME_RULES_NOTE)
     chk.trusted_base += [
         "VALIDATED ONLY, not proved: what CPython ast and tree-sitter make of blank lines, comments, white space, CRLF, U+FEFF and renamed "
         "identifiers (every AST-level analysis of every linter), the codec / universal-newline layer of Path.read_text, and every detector that "
@@ -830,6 +907,9 @@ def run(tier: str, seed: int, replay: str | None = None) -> int:
         "the line lists on which the theorems are stated are tied to the implementation by the unit-level correspondence (tokens, LOC, "
         "suppression decisions of both versions = model under Actual/EditActual.v) and by Gen/{Edit,Ignore,Dry,Srp}Gen.v",
         "known.d/C13.json keys for validated-only deviations are (rule id | edit kind | deviation class | language); any other key is a violation",
+        "DRY block filters (Model/EditFilter.v): ast.Call spans are parser output handed to the model for both versions; the model is compared "
+        "with the four filter objects of create_default_registry() on ASCII text only (re's \\w / \\s and str.strip are Unicode-aware, the model's "
+        "are the ASCII classes); Props/C13.v C13_dry_filters_insert assumes the spans move with the lines (calls_ins), the judged cases do not",
     ]
     chk.build(["theories/Props/C13.v"], ["EditGen", "IgnoreGen", "DryGen", "SrpGen"], known_v=["theories/Props/C13Known.v"])
     scale = chk.budget_scale()
@@ -992,6 +1072,76 @@ def run(tier: str, seed: int, replay: str | None = None) -> int:
         if alt and alt[0] in (1, 2, 3):
             chk.notes.append("implementation no longer matches the claimed quirk vector on every unit case but matches: " + names[alt[0]] +
                              " (a listed defect is no longer observed; the theorems hold for every vector)")
+    # ---------------------------------------------------------------- the DRY block filters (Model/EditFilter.v) on both versions
+    funits = [(uj, u) for uj, u in units if u.get("fcase") and u["fcase"]["blocks"]]
+    fver, ferr = [None] * len(funits), None
+    if funits:
+        for attempt in range(3):
+            with scratch_dir("tv-c13-coqf-") as wd:
+                try:
+                    fver = judge_fcases([u["fcase"] for _, u in funits], wd)
+                    ferr = None
+                    break
+                except RuntimeError as e:
+                    ferr = str(e)
+            if "inconsistent assumptions" not in ferr:
+                break
+            coq.regen_and_build(["theories/Props/C13.v"])
+        if ferr is not None:
+            chk.broken.append(f"Model:evaluation of the block-filter model failed ({ferr[:400]})")
+    fc_all = [True] * N_FCANDS
+    fc_first_bad = None
+    for (uj, u), ver in zip(funits, fver):
+        if ver is None:
+            continue
+        fc = u["fcase"]
+        payload = {"program": _slim(jobs[uj["job"]]["prog"]), "file": uj["file"], "plans": [pl.ops for pl in jobs[uj["job"]]["plans"]],
+                   "meta": jobs[uj["job"]]["meta"], "filters": fc["names"]}
+        if not ver[0] or not ver[0][0]:
+            chk.correspondence_broken({"level": "block-filters", "detail": "the registered filters are not the four the model transcribes", **payload})
+            continue
+        for blk, bits in zip(fc["blocks"], ver[1:]):
+            chk.dist("unit:filter-block")
+            if any(blk[4]) or any(blk[5]):
+                chk.dist("unit:filter-block:some-filter-fires")
+            for nm, a, b in zip(fc["names"], blk[4], blk[5]):
+                if a or b:
+                    chk.dist("unit:filter-fires:" + nm)
+            inv_impl = bool(bits[0])
+            corr = [bool(bits[1 + 2 * c]) for c in range(N_FCANDS)]
+            inv = [bool(bits[2 + 2 * c]) for c in range(N_FCANDS)]
+            fc_all = [a and b for a, b in zip(fc_all, corr)]
+            case = {"block": blk, **payload}
+            if not corr[0]:
+                fc_first_bad = fc_first_bad or case
+                if not any(corr):
+                    chk.correspondence_broken({"level": "block-filters", "detail": "no candidate quirk vector reproduces the filters' decisions on "
+                                               "both versions of the block", **case})
+                    if not inv_impl:
+                        chk.violation({"reason": "a DRY block filter decides differently after a meaning-preserving edit and the model does not explain it", **case})
+                continue
+            if inv_impl:
+                continue
+            relevant = [FILTER_FLAGS[c] for c in FILTER_FLAGS if inv[c]]
+            if inv[N_FCANDS - 1] and not relevant:
+                relevant = list(FILTER_FLAGS.values())
+            if inv[N_FCANDS - 1]:
+                for k in relevant:
+                    if k in chk.known["known"]:
+                        chk.known_finding(k, case)
+                    else:
+                        chk.violation({"reason": f"a DRY block filter decides differently after a meaning-preserving edit; flag {k} is not a listed defect", **case})
+            else:
+                chk.violation({"reason": "a DRY block filter decides differently after a meaning-preserving edit although the filter model without "
+                                         "its listed defects is invariant on this block (Props/C13.v C13_dry_filters_insert / _ws_variant)", **case})
+    if funits and not fc_all[0]:
+        alt = [i for i, ok in enumerate(fc_all) if ok]
+        if alt:
+            chk.notes.append("the block filters no longer match the claimed quirk vector on every block but match candidate "
+                             f"{alt[0]} (1-3: {FILTER_FLAGS} off, 4: all off) - a listed defect is no longer observed")
+        elif fc_first_bad is not None:
+            chk.correspondence_broken({"level": "block-filters", "detail": "no single candidate quirk vector reproduces the filters on every block", **fc_first_bad})
+    chk.extra_cov["filter_blocks_judged_in_coq"] = sum(len(u["fcase"]["blocks"]) for _, u in funits)
     if _COLLECT is not None:
         Path(_os.environ["C13_COLLECT"]).write_text(json.dumps({"counts": _COLLECT, "examples": _COLLECT_EX}, indent=1, default=str))
     chk.extra_cov["unit_cases_judged_in_coq"] = len(units)
